@@ -101,6 +101,11 @@ def judge(ctx, ast, sp, T, vi, v):
     if skip_cell(ast):
         res['unspec']['output_form_not_enabled_on_input'] += 1
         return
+    if e1.leaves_of(ast) & {'tag_ext', 'tag_adj', 'tag_num', 'dc_tuptag'}:
+        # the statement's carve-out: convert serialises a value by its OWN type, so externally / adjacently tagged unions
+        # (which wrap the variant) are not among the types a typed value is a fixed point of
+        res['unspec']['externally_or_adjacently_tagged'] += 1
+        return
     if not values.is_interchange(v) and c05.IDENTITY_LEAVES & e1.leaves_of(ast):
         return
     root = e1.root_of(ast)
